@@ -186,6 +186,13 @@ def mk(shape_id, op):
                     results.append((t.get_sub_tree(list(sub), keep_root=True), list(sub)))
         elif op == "midpoint":
             results.append((t.root_at_midpoint(), tips))
+        elif op == "rich_dict":
+            from cogent3.util.deserialise import deserialise_tree
+
+            d = t.to_rich_dict()
+            d = {k: ({n: dict(v) for n, v in d[k].items()} if k == "edge_attributes" else d[k]) for k in d}  # stands in for json round trip
+            d.pop("type", None)
+            results.append((deserialise_tree(d), tips))
         elif op == "prune":
             c = t.deepcopy()
             c.prune()
@@ -366,7 +373,7 @@ ENCODED = [
         ["TreeNode.unrooted_deepcopy", "TreeNode.unrooted", "TreeNode.rooted_at", "TreeNode.rooted_with_tip", "TreeNode._get_sub_tree",
          "TreeNode.get_sub_tree", "TreeNode.copy", "TreeNode.deepcopy", "TreeNode._sorted", "TreeNode.sorted", "PhyloNode.prune",
          "PhyloNode.root_at_midpoint", "PhyloNode._get_distances", "PhyloNode.get_distances", "PhyloNode.tip_to_tip_distances",
-         "TreeNode.get_tip_names", "TreeNode._getNeighboursExcept", "TreeBuilder.edge_from_edge"],
+         "TreeNode.get_tip_names", "TreeNode._getNeighboursExcept", "TreeBuilder.edge_from_edge", "TreeNode.to_rich_dict", "util.deserialise.deserialise_tree"],
     )
 ]
 BOUNDS = {
@@ -383,7 +390,7 @@ ASSUMPTIONS = [
 OUTSIDE = ["newick / JSON text round trip of arbitrary names and float formatting", "phylo.tree_distance metrics", "trees with > 6 tips", "None / zero branch lengths"]
 TRUSTED = ["the parent-pointer path-length walker and split-set extractor in props/c09.py"]
 
-_OPS = ["unrooted", "unrooted_deepcopy", "rooted_at", "rooted_with_tip", "deepcopy", "sorted", "sub", "sub_keep_root", "distances", "midpoint"]
+_OPS = ["unrooted", "unrooted_deepcopy", "rooted_at", "rooted_with_tip", "deepcopy", "sorted", "sub", "sub_keep_root", "distances", "midpoint", "rich_dict"]
 
 
 def obligations(tier):
